@@ -147,9 +147,9 @@ func (x *Exec) call(c *ast.CallExpr, st *State) *Val {
 		return x.inlineCall(fi, c, st)
 	}
 	// unknown external: arguments evaluated, result unconstrained
-	x.recvVal(c, st)
+	x.escapes(x.recvVal(c, st))
 	for _, a := range c.Args {
-		x.expr(a, st)
+		x.escapes(x.expr(a, st))
 	}
 	x.abstract("external call without contract: " + key)
 	return x.freshVal("ext."+fn.Name(), info.TypeOf(c))
@@ -271,6 +271,7 @@ func (x *Exec) builtin(name string, c *ast.CallExpr, st *State) *Val {
 	case "new":
 		t := info.TypeOf(c).Underlying().(*types.Pointer).Elem()
 		ref := x.alloc(st, "new")
+		x.own(ref, t)
 		x.writeThrough(st, t, ref, x.zeroVal(t))
 		return IntV(ref, info.TypeOf(c))
 	case "delete":
@@ -563,6 +564,10 @@ func (x *Exec) contractCall(ct *FuncContract, fn *types.Func, c *ast.CallExpr, s
 
 func (x *Exec) applyContract(ct *FuncContract, fn *types.Func, recv *Val, args []*Val, c *ast.CallExpr, pos token.Pos, st *State) *Val {
 	sig := fn.Type().(*types.Signature)
+	for _, a := range args {
+		x.escapes(a)
+	}
+	x.escapes(recv)
 	pre := st.Snapshot()
 	// preconditions
 	envPre := x.calleeEnv(fn, ct, recv, args, nil, st, pre)
@@ -590,7 +595,7 @@ func (x *Exec) applyContract(ct *FuncContract, fn *types.Func, recv *Val, args [
 				if k == allocKey {
 					continue
 				}
-				if !mi.nonFresh[k] && !mi.cuts {
+				if !mi.nonFresh[k] && !mi.cuts && len(mi.writeRefs[k]) == 0 {
 					x.heapHavocFresh(st, k, allocBefore)
 				} else {
 					x.heapHavoc(st, k)
@@ -613,6 +618,13 @@ func (x *Exec) applyContract(ct *FuncContract, fn *types.Func, recv *Val, args [
 	}
 	for _, r := range results {
 		x.wellFormed(st, r)
+		if ct.Flags["fresh-result"] && r.K == KInt && r.T != nil {
+			if _, ok := r.T.Underlying().(*types.Map); ok {
+				x.own(r.S, r.T)
+			} else if pt, ok := r.T.Underlying().(*types.Pointer); ok {
+				x.own(r.S, pt.Elem())
+			}
+		}
 	}
 	envPost := x.calleeEnv(fn, ct, recv, args, results, st, pre)
 	for _, cl := range ct.ClausesOf("ensures") {
@@ -681,7 +693,7 @@ func (x *Exec) inferModifies(fi *FuncInfo, recv *Val, args []*Val, c *ast.CallEx
 	d := x.discover(st, func(s *State) {
 		x.inlineBody(fi, recv, args, c, s)
 	})
-	mi := &modInfo{writes: d.writes, nonFresh: d.nonFresh, cuts: d.cut}
+	mi := &modInfo{writes: d.writes, nonFresh: d.nonFresh, writeRefs: d.writeRefs, cuts: d.cut}
 	x.e.modCache[fi.Key] = mi
 	return mi
 }
